@@ -61,7 +61,7 @@ Next == /\ Len(hist) < Depth
         /\ \E a \in Ops(cfg, Probe) : hist' = Append(hist, a) /\ s' = Step(cfg, s, a) /\ UNCHANGED cfg
 
 --------------------------------------------------------------------------------
-(* Model-level theorems.  The first four depend on the configuration only and are evaluated on the initial states. *)
+(* Model-level theorems.  Those guarded by AtRoot depend on the configuration only (evaluated on the initial states). *)
 Consistent == s = Run(cfg, S0, hist, 1)
 AtRoot == hist = <<>> /\ Valid(cfg)
 \* trip <=> above the pick-up / start value: the stages tile the current axis
